@@ -33,7 +33,7 @@ ASSUMPTIONS = [
     "rescaling is the card mass of the observable's flavour, or for CC totals the kernel's own mass, which must be a card mass",
     "the independent engine uses eko's documented block rule for the basis but none of its code",
 ]
-BUDGET = {"quick": {"examples": 3200, "wall": 600, "min_evaluations": 150}, "thorough": {"examples": 12000, "wall": 2400, "min_evaluations": 3000}}
+BUDGET = {"quick": {"examples": 3200, "wall": 600, "min_evaluations": 150}, "thorough": {"examples": 40000, "wall": 2400, "min_evaluations": 3000}}
 MANDATORY = {
     t: ["nontrivial", "x:node", "x:offnode", "grid:log", "grid:linear", "shifted-convolution-point", "x:near-one", "pto:3", "family:heavy", "family:asy", "family:intrinsic", "cc-total-with-massive-component"]
     for t in ("quick", "thorough")
